@@ -108,6 +108,37 @@ class Scn:
             con["var_range"] = rng_
         self.c, self.pool, self.amp = quiet(fac.new_config, opts, con or None)
         self.vm = self.amp.vm
+        # background / efficiency as functions of floating parameters of the same VarsManager (scenario dimension
+        # "shape"): the model is then built directly, Model_cfit(amp, w_bkg, bg_f=..., eff_f=...)
+        self.shape = sc.get("shape", "columns")
+        self.direct = self.shape != "columns"
+        self.bg_f = self.eff_f = None
+        self.model = None
+        if self.direct:
+            import tensorflow as tf
+            from tf_pwa.data import data_index
+            from tf_pwa.variable import Variable
+
+            if self.shape in ("bg_param", "bg_eff_param"):
+                slope = Variable("bg_slope", vm=self.vm)
+                slope.real_var(value=0.7)
+
+                def bg_f(data, slope=slope):
+                    m = data_index(data, ("particle", "(B, C)", "m"))
+                    return tf.exp(-slope() * (m - 4.0))
+
+                self.bg_f = bg_f
+            if self.shape in ("eff_param", "bg_eff_param"):
+                eslope = Variable("eff_slope", vm=self.vm)
+                eslope.real_var(value=-0.5)
+
+                def eff_f(data, eslope=eslope):
+                    m = data_index(data, ("particle", "(B, D)", "m"))
+                    return tf.exp(-eslope() * (m - 2.4))
+
+                self.eff_f = eff_f
+            if kind == "cfit_ext":
+                quiet(self.c.free_for_extended, self.amp)
         self.bounds = dict(self.c.bound_dic)
         if set(self.bounds) != set(rng_):
             raise tlc.MachineryError("bounds of the configuration not taken over: %s" % self.bounds)
@@ -137,6 +168,21 @@ class Scn:
         self.scale = np.array([abs(float(self.vm.get(n, val_in_fit=False))) * 0.1 if (n.endswith(("_mass", "_width")) and n not in self.bounds) else 1.0 for n in self.names])
 
     def fcn(self, batch):
+        if self.direct:
+            from tf_pwa.model import FCN
+            from tf_pwa.model.cfit import Model_cfit, ModelCfitExtended
+
+            if self.model is None:
+                cls = ModelCfitExtended if self.kind == "cfit_ext" else Model_cfit
+                self.model = cls(self.amp, 0.3, self.bg_f, self.eff_f)
+            f = quiet(FCN, self.model, self.data, self.phsp, batch=batch, gauss_constr=dict(self.c.gauss_constr_dic))
+            self.keep.append((self, f))
+            if not hasattr(self, "names"):
+                self.finish_setup()
+                want = (["bg_slope"] if self.bg_f is not None else []) + (["eff_slope"] if self.eff_f is not None else [])
+                if any(w not in self.names for w in want):
+                    raise tlc.MachineryError("shape parameter not floating: %s not all in %s" % (want, self.names))
+            return f
         all_data = ([self.data], [self.phsp], ([self.bg] if self.bg is not None else None), None)
         f = quiet(self.c.get_fcn, all_data=all_data, batch=batch)
         self.keep.append((self, f))
@@ -322,7 +368,7 @@ def run(ctx):
 
     # ---------------------------------------------------------------- replay
     # stratified: every kind; every bound kind, floating set, constraint kind at least once
-    budget = 9 if quick else 32
+    budget = 10 if quick else 38
     chosen = choose(scenarios, rng, budget, quick)
     npoints = 1 if quick else 2
     stats = {"scenarios": 0, "points": 0, "fd_checks": 0, "ill_conditioned": 0, "identities": 0, "max_fd_rel": 0.0}
@@ -371,8 +417,19 @@ def choose(scenarios, rng, budget, quick):
         cand = sorted([s for s in pools.get(k, []) if s["batch"] == "single"], key=lambda s: -richness(s))
         chosen += cand[: (nq if quick else nt)]
     # always: an extended cfit model with ragged batches (the batch-size clause on the model that once raised there)
-    cand = sorted([s for s in pools.get("cfit_ext", []) if s["batch"] == "ragged"], key=lambda s: -richness(s))
+    cand = sorted([s for s in pools.get("cfit_ext", []) if s["batch"] == "ragged" and s["shape"] == "columns"], key=lambda s: -richness(s))
     chosen += cand[:1]
+    # always: background and efficiency functions of floating parameters (I_bg, I_sig with curvature) for cfit and
+    # extended cfit; one batch, couplings floating (quick: two scenarios, thorough: every shape for both kinds, twice)
+    wanted = [("cfit", "bg_eff_param"), ("cfit_ext", "bg_param")]
+    if not quick:
+        wanted += [(k, sh) for k in ("cfit", "cfit_ext") for sh in ("bg_param", "eff_param", "bg_eff_param")]
+    for n_, (k, sh) in enumerate(wanted):
+        cand = [s for s in pools[k] if s["shape"] == sh and s["floating"] == "couplings" and s not in chosen and (s["batch"] == "single" or n_ >= 2)]
+        cand.sort(key=lambda s: (-richness(s) if n_ % 2 else richness(s), json.dumps(s, sort_keys=True)))
+        chosen += cand[:1]
+    for k in pools:
+        pools[k] = [s for s in pools[k] if s["shape"] == "columns" or s in chosen]
     ki = 0
     rep = 0
     while len(chosen) < budget and rep < 40:
@@ -395,7 +452,7 @@ def choose(scenarios, rng, budget, quick):
 
 
 def sc_tag(sc):
-    return "%s|%s|%s|%s|%s|%s" % (sc["kind"], sc["floating"], sc["bounds"], sc["share"], sc["constr"], sc["batch"])
+    return "%s|%s|%s|%s|%s|%s|%s" % (sc["kind"], sc["floating"], sc["bounds"], sc["share"], sc["constr"], sc["batch"], sc.get("shape", "columns"))
 
 
 def check_scenario(ctx, fac, sc, rng, npoints, v, stats, quick, with_eff):
